@@ -51,7 +51,10 @@ CONSTANTS
                    \* flush), "cut" (link cuts), "dem" (demotion), "mix" (all of them); chosen in Init
     Lids,          \* LockIds (model values; symmetric)
     Fols,          \* follower identities (model values; symmetric); Cardinality(Fols) >= Max(NFs)
-    Vals,          \* value operations: 0 = none, n > 0 = SET n
+    Vals,          \* value operation codes an ack request may carry (see After below): 0 none, 1 / 2 SET a / SET b, 3 UNSET,
+                   \* 4 MOD (INCR / APPEND / PUSH), 5 TRIM (SHIFT / POP), 6 PIPELINE[SET a], 7 PIPELINE[MOD], 8 PIPELINE of header-only sub-frames
+    InitVals,      \* prior state of the key's value a behaviour may start with: 0 no value at all, 1 value object present but unset, 2.. a value
+    UndoLostOnNone, \* FALSE: the code; TRUE: deviation "the undo record of a PIPELINE on a key without a value is dropped" (seeded change C11e)
     Timeouts,      \* Timeout field of lock requests (seconds); for an ack grant it bounds the ack wait
     MaxReq,        \* client requests per behaviour
     MaxNow,        \* clock bound
@@ -90,7 +93,27 @@ RemoveIdx(Q, i) == SubSeq(Q, 1, i - 1) \o SubSeq(Q, i + 1, Len(Q))
 -----------------------------------------------------------------------------
 \* replies and ghost bookkeeping
 
-Gh0 == [acks |-> {}, negs |-> {}, req |-> -1, nfpush |-> -1, doomed |-> FALSE, wfail |-> FALSE, vbefore |-> -1]
+Gh0 == [acks |-> {}, negs |-> {}, req |-> -1, nfpush |-> -1, doomed |-> FALSE, wfail |-> FALSE, vbefore |-> -1, cbefore |-> -1]
+
+\* The value of the key, abstract: 0 = no value at all, 1 = a value object that is marked unset (what an UNSET, and a rollback
+\* to "no value", leave behind), >= 2 = a value.  Obs is what a client can see of it.  After(v, op) = the register after a
+\* value operation of class op (spec/ValueReg.tla has the byte-level semantics; here only "before / after" matters):
+Obs(v) == IF v <= 1 THEN 0 ELSE v
+After(v, op) ==
+    CASE op = 0 -> v
+      [] op = 1 -> 2
+      [] op = 2 -> 3
+      [] op = 3 -> IF v = 0 THEN 0 ELSE 1                           \* UNSET: nothing to unset on a key without a value object
+      [] op \in {4, 7} -> IF v <= 1 THEN 4 ELSE IF v < 10 THEN v + 10 ELSE v   \* builds on what is there
+      [] op = 5 -> IF v <= 1 THEN v ELSE 5                          \* only acts on a value
+      [] op = 6 -> 2
+      [] OTHER -> v                                                  \* 8: sub-frames that change nothing
+IsPipe(op) == op \in {6, 7, 8}
+\* the undo record a pending hold keeps: the value before its operation (0 is a legal undo record: "undo means unset");
+\* -1 = none kept.  Deviation C11e: LockData.IsEmpty() forgets the record of a PIPELINE whose value-before is "no value".
+UndoOf(v, op) == IF op = 0 THEN -1 ELSE IF UndoLostOnNone /\ IsPipe(op) /\ v = 0 THEN -1 ELSE v
+\* ProcessRecoverLockData: back to the value before; "no value" comes back as an unset value object
+Restore(v, undo) == IF undo < 0 THEN v ELSE IF undo = 0 THEN 1 ELSE undo
 
 \* the record of request rid is in the leader's own log: its entry, and its value frame if it carries one
 EntryIn(S, rid) == rid \in S.disk
@@ -102,7 +125,8 @@ Reply(S, rid, res) ==
     [S EXCEPT !.out = Append(@, [rid |-> rid, res |-> res, ack |-> r.ack, cmd |-> r.cmd,
                                  ondisk |-> Written(S, rid), entry |-> EntryIn(S, rid), hv |-> r.hv, value |-> ValueIn(S, rid), acks |-> S.gh[rid].acks, req |-> S.gh[rid].req,
                                  nfpush |-> S.gh[rid].nfpush, doomed |-> S.gh[rid].doomed,
-                                 lidpend |-> r.lidpend, ldr |-> r.ldr, dem |-> S.dem]),
+                                 lidpend |-> r.lidpend, ldr |-> r.ldr, dem |-> S.dem,
+                                 waspend |-> (r.st = "pend"), val |-> S.val, vbefore |-> S.gh[rid].vbefore, cbefore |-> S.gh[rid].cbefore, dv |-> r.dv]),
               !.reqs[rid].st = "done", !.reqs[rid].nrep = @ + 1]
 
 LiveWaiters(S) == SelectSeq(S.W, LAMBDA id : S.reqs[id].st = "wait")
@@ -115,17 +139,18 @@ Grant(S, rid) ==
     LET r == S.reqs[rid] IN
     IF r.ack
     THEN [S EXCEPT !.H = Append(@, [lid |-> r.lid, rid |-> rid, ackc |-> 0, laof |-> FALSE, fneed |-> 0,
-                                    undo |-> IF r.dv > 0 THEN S.val ELSE -1, dv |-> r.dv]),
-                   !.val = IF r.dv > 0 THEN r.dv ELSE @,
+                                    undo |-> UndoOf(S.val, r.dv), dv |-> r.dv, nv |-> After(S.val, r.dv)]),
+                   !.val = After(@, r.dv),
                    !.reqs[rid].st = "pend",
                    \* LockManager.AofLockData(COMMAND_LOCK): the record carries the key's value when there is one
-                   !.reqs[rid].hv = (IF r.dv > 0 THEN r.dv ELSE S.val) # 0,
+                   !.reqs[rid].hv = After(S.val, r.dv) # 0,
                    !.gh[rid].vbefore = S.val,
                    !.chan = Append(@, [t |-> "lock", rid |-> rid, ok |-> TRUE, f |-> 0])]
     ELSE LET S1 == [S EXCEPT !.H = Append(@, [lid |-> r.lid, rid |-> rid, ackc |-> NOACK, laof |-> FALSE, fneed |-> 0,
-                                              undo |-> -1, dv |-> r.dv]),
-                             !.val = IF r.dv > 0 THEN r.dv ELSE @,
-                             !.cval = IF r.dv > 0 THEN r.dv ELSE @]
+                                              undo |-> -1, dv |-> r.dv, nv |-> After(S.val, r.dv)]),
+                             !.val = After(@, r.dv),
+                             !.cval = After(S.val, r.dv),
+                             !.gh[rid].vbefore = S.val, !.gh[rid].cbefore = S.cval]
          IN Reply(S1, rid, SUCCED)
 
 \* wakeUpWaitLocks: exclusive key => at most one grant
@@ -144,10 +169,10 @@ DoAck(S, rid, ok) ==
     IF i = 0 THEN S                                    \* hold already removed: RemoveLock set ackCount = 0xff -> refCount-- only
     ELSE IF S.H[i].ackc = NOACK THEN S
     ELSE IF ok
-    THEN Reply([S EXCEPT !.H[i].ackc = NOACK, !.cval = IF S.H[i].dv > 0 THEN S.H[i].dv ELSE @], rid, SUCCED)
+    THEN Reply([S EXCEPT !.H[i].ackc = NOACK, !.cval = IF S.H[i].dv > 0 THEN S.H[i].nv ELSE @], rid, SUCCED)
     ELSE LET h  == S.H[i]
              S1 == [S EXCEPT !.H = RemoveIdx(@, i),
-                             !.val = IF h.undo >= 0 THEN h.undo ELSE @,
+                             !.val = Restore(@, h.undo),
                              \* lock.isAof is set: PushUnLockAof (only a leader pushes)
                              !.chan = IF S.role = "leader" THEN Append(@, [t |-> "unlock", rid |-> rid, ok |-> TRUE, f |-> 0]) ELSE @]
          IN WakePass(Reply(S1, rid, ERROR))
@@ -382,7 +407,7 @@ FireTimeout(rid) ==
                  LET i  == IdxOfRid(s.H, rid)
                      h  == s.H[i]
                      S1 == [s EXCEPT !.H = RemoveIdx(@, i),
-                                     !.val = IF h.undo >= 0 THEN h.undo ELSE @,
+                                     !.val = Restore(@, h.undo),
                                      !.gh[rid].doomed = TRUE,
                                      !.chan = IF s.role = "leader" THEN Append(@, [t |-> "unlock", rid |-> rid, ok |-> TRUE, f |-> 0]) ELSE @]
                  IN WakePass(Reply(S1, rid, TIMEOUT))
@@ -418,9 +443,9 @@ Demote3 ==
     /\ UNCHANGED hist
 
 Init ==
-    /\ \E md \in Modes, n \in NFs, c \in Classes, U \in SUBSET Fols :
+    /\ \E md \in Modes, n \in NFs, c \in Classes, U \in SUBSET Fols, v0 \in InitVals :
        /\ Cardinality(U) = n
-       /\ s = [mode |-> md, nf |-> n, cls |-> c, H |-> <<>>, W |-> <<>>, waited |-> FALSE, val |-> 0, cval |-> 0, reqs |-> <<>>, gh |-> <<>>, out |-> <<>>,
+       /\ s = [mode |-> md, nf |-> n, cls |-> c, H |-> <<>>, W |-> <<>>, waited |-> FALSE, val |-> v0, cval |-> v0, val0 |-> v0, reqs |-> <<>>, gh |-> <<>>, out |-> <<>>,
             chan |-> <<>>, wbuf |-> <<>>, disk |-> {}, vdisk |-> {}, recok |-> TRUE, valok |-> TRUE,
             fl |-> "idle", flq |-> <<>>, flacks |-> <<>>, midsteps |-> 0, tbl |-> {}, up |-> U, up0 |-> U,
             nlf |-> {}, fst |-> [x \in {} |-> 0], nfl |-> {}, role |-> "leader", dem |-> 0, now |-> 0,
@@ -504,7 +529,15 @@ FailedWriteAnswered ==
 \* the follower half of the handshake: a positive acknowledgement frame only for a record that is replayed and
 \* completely (entry and value frame) in that follower's own log
 FollowerAckHonest == \A m \in s.nfl : m.ok => m.logged
-ValueInv == (\A i \in 1..Len(s.H) : s.H[i].ackc = NOACK \/ s.H[i].dv = 0) => s.val = s.cval
+ValueInv == (\A i \in 1..Len(s.H) : s.H[i].ackc = NOACK \/ s.H[i].dv = 0) => Obs(s.val) = Obs(s.cval)
+\* C11 (3), the rollback in the property's terms: when a pending request is answered with an error (failed write, negative
+\* ack, timeout, demotion) the key's value is, at that moment, the value before its grant - for EVERY prior state of the key,
+\* "no value at all" (vbefore = 0) and "value object present but unset" (vbefore = 1) included - and whoever is served next
+\* (a queued request granted by the wake pass) meets the committed value, not the one the failed request wrote
+ErrorsOfPending == {j \in 1..Len(s.out) : s.out[j].ack /\ s.out[j].waspend /\ s.out[j].res # SUCCED}
+RollbackInv == \A j \in ErrorsOfPending : Obs(s.out[j].val) = Obs(s.out[j].vbefore)
+RollbackToNoValue == \A j \in ErrorsOfPending : s.out[j].vbefore \in {0, 1} => Obs(s.out[j].val) = 0
+ServedWithCommitted == \A j \in 1..Len(s.out) : (~s.out[j].ack /\ s.out[j].cmd = "L" /\ s.out[j].res = SUCCED) => Obs(s.out[j].vbefore) = Obs(s.out[j].cbefore)
 NoLostWakeup == (s.H = <<>>) => LiveWaiters(s) = <<>>
 OneReply == \A rid \in DOMAIN s.reqs : s.reqs[rid].nrep <= 1
 PendShape == \A i \in 1..Len(s.H) : (s.H[i].ackc # NOACK) <=> (s.reqs[s.H[i].rid].st = "pend")
@@ -514,13 +547,16 @@ Exclusive == Len(s.H) <= 1
 -----------------------------------------------------------------------------
 \* behaviour export for the replay on the real code (simulation mode)
 Quiet == s.chan = <<>> /\ s.nfl = {} /\ s.fl = "idle"
-Export == ToJson([mode |-> s.mode, up0 |-> s.up0, hist |-> hist])
+Export == ToJson([mode |-> s.mode, up0 |-> s.up0, val0 |-> s.val0, hist |-> hist])
 ExportAt == (Len(s.reqs) = MaxReq /\ Quiet /\ Len(hist) >= 4) => PrintT("BEHAVIOUR " \o Export)
 
 \* used with A10Fixed = FALSE to obtain the counterexample of finding A10 as a replay script
 AckSafetyCx == AckSafety \/ (PrintT("CX " \o Export) /\ FALSE)
 \* used with AckAfterRecords = TRUE (deviation C11d): the two ways the early acknowledgement shows
 ValueInLogCx == ValueInLog \/ (PrintT("CX " \o Export) /\ FALSE)
+\* used with UndoLostOnNone = TRUE (deviation C11e)
+RollbackCx == RollbackInv \/ (PrintT("CX " \o Export) /\ FALSE)
+ServedCx == ServedWithCommitted \/ (PrintT("CX " \o Export) /\ FALSE)
 FollowerAckCx == FollowerAckHonest \/ (PrintT("CX " \o Export) /\ FALSE)
 FailedWriteCx == NoSuccessAfterFailure \/ (PrintT("CX " \o Export) /\ FALSE)
 
